@@ -266,6 +266,8 @@ def run_open(exe, paths, wd, tag, env, secs=10, asmb=0, fork=1, nprocs=1, timeou
 
 
 PAR = max(1, min(4, NPROC // 2))
+LEAN_PREFIX = []         # 'VARIANT ...' lines, set by run_check after the variant probe
+VARIANT = dict(int63=False)
 
 
 def lean_batch(drv, lines, timeout=1500):
@@ -275,11 +277,12 @@ def lean_batch(drv, lines, timeout=1500):
     def one(part):
         if not part:
             return []
+        part = LEAN_PREFIX + part          # every driver process is told which variant the tree follows
         p = subprocess.run([drv], input='\n'.join(part) + '\n', stdout=subprocess.PIPE, stderr=subprocess.PIPE, text=True, timeout=timeout)
         out = p.stdout.split('\n')
         if p.returncode != 0 or len(out) < len(part):
             raise RuntimeError('lean driver failed rc=%s lines=%d/%d stderr=%s' % (p.returncode, len(out), len(part), p.stderr[-400:]))
-        return out[:len(part)]
+        return out[len(LEAN_PREFIX):len(part)]
     k = PAR if len(lines) >= 64 else 1
     n = (len(lines) + k - 1) // k
     parts = [lines[i * n:(i + 1) * n] for i in range(k)]
@@ -316,6 +319,8 @@ def judge(case, ans, model):
     wide = model.endswith(' WIDE')
     if wide:
         model = model[:-5]
+    if VARIANT['int63']:
+        wide = False        # the repaired reader refuses such words before any signed arithmetic: fully modelled (Safety.getBodyS)
     mt = model.split()
     fsz = len(case['data'])
     if ans.startswith('NOT-RUN'):
@@ -553,6 +558,12 @@ def name32(s):
     return be32(len(b)) + b + bytes((4 - len(b) % 4) % 4)
 
 
+def probe63_file():
+    """CDF-5, one dimension "x" of length 2^63+3, no attributes, no variables"""
+    be64 = lambda n: n.to_bytes(8, 'big')
+    return b'CDF\x05' + be64(0) + be32(10) + be64(1) + be64(1) + b'x\0\0\0' + be64((1 << 63) + 3) + be32(0) + be64(0) + be32(0) + be64(0)
+
+
 def f14_file(nelems=0x7fffffff):
     """40-byte CDF-1 file: no dimensions, ONE global attribute "a" of type NC_DOUBLE with `nelems` elements, then nothing"""
     return b'CDF\x01' + be32(0) + be32(0) + be32(0) + be32(12) + be32(1) + name32('a') + be32(6) + be32(nelems)
@@ -739,6 +750,21 @@ def run_check(tier, seed):
         if not os.path.exists(drv):
             V.broken_tie('Lean driver c19drv does not build', out[-1500:])
             return V.finish()
+        # ---- which variant does the tree follow?  (repair of B10-3/B10-5/B10-6: 64-bit header fields with the sign bit set
+        # and begin + len beyond 2^63-1 are refused; Safety.getBodyS / postPassS model both, Lemmas/SafetyStrict.lean
+        # proves the repaired reader conservative).  Witness replay: a CDF-5 file whose only dimension has length 2^63+3.
+        pv = os.path.join(wd, 'probe63.nc')
+        open(pv, 'wb').write(probe63_file())
+        pa = run_open(open_a, [pv], wd, 'probe', ASAN_ENV, secs=10, fork=1)[0][0]
+        if pa.startswith('ERR -51'):
+            VARIANT['int63'] = True
+        elif pa.startswith('OK 5 ') and ' D -' in pa:
+            VARIANT['int63'] = False
+        else:
+            V.broken_tie('variant probe: unexpected answer of the real library for a dimension length of 2^63+3', pa[:600])
+            return V.finish()
+        LEAN_PREFIX[:] = ['VARIANT int63 %d' % (1 if VARIANT['int63'] else 0)]
+        V.cov['tree_variant'] = dict(int63='repaired (B10-3/5/6)' if VARIANT['int63'] else 'present')
         fails = []          # (sig, text, replay)
         dist = {}
         # ---- S4a malformed-file stream
